@@ -1064,6 +1064,8 @@ class FnEmit:
         if op in ('load', 'store') and not ins.get('atomic') and ins['ptr'].k == 'local' and ins['ptr'].name in s.guarded:
             mac, basee = s.guarded[ins['ptr'].name]
             B('%s(%s); /* permission check: guarded member */' % (mac, basee))
+            # optional kind-specific hook (MACRO_load / MACRO_store), used by the lazy list materialisation of the chain-walk units
+            B('#ifdef %s_%s' % (mac, op)); B('%s_%s(%s);' % (mac, op, basee)); B('#endif')
             em.perm_sites.append(dict(fn=em.dm.get(s.f.name, s.f.name), macro=mac, op=op, src=('%s:%d' % s.cur_loc) if s.cur_loc else None))
         if op == 'alloca':
             if dst in s.promoted:
